@@ -6,7 +6,7 @@ Import ListNotations.
 Open Scope N_scope.
 
 Record case := mkCase {
-  c_id : nat; c_nsess : nat; c_nmbox : nat; c_hist : list op;
+  c_id : nat; c_nsess : nat; c_nmbox : nat; c_bulk : bool; c_hist : list op;
   c_obs : list (list resp * outcome);
   c_views : list (nat * N * list (uid * flagset)) }.
 
@@ -65,17 +65,22 @@ Fixpoint buf_has (b : list (nat * list resp)) (s : nat) : bool :=
 Fixpoint buf_del (b : list (nat * list resp)) (s : nat) : list (nat * list resp) :=
   match b with [] => [] | (s', l) :: t => if Nat.eqb s s' then t else (s', l) :: buf_del t s end.
 
-Fixpoint regroup (h : list op) (tr : list (list resp * outcome)) (b : list (nat * list resp))
+(* With a bulk time the responses produced while idling are buffered and sent merged (sendMergedResponses) when the
+   IDLE ends; the responses of the flush at the beginning of IDLE are sent at once. b holds them, b2 the buffered ones. *)
+Fixpoint regroup (bulk : bool) (h : list op) (tr : list (list resp * outcome)) (b b2 : list (nat * list resp))
   : list (list resp * outcome) :=
   match h, tr with
   | o :: h', (out, oc) :: tr' =>
       match o with
-      | Cmd s CIdle => ([], oc) :: regroup h' tr' (buf_set b s out)
-      | Cmd s CDone => (buf_get b s ++ out, oc) :: regroup h' tr' (buf_del b s)
+      | Cmd s CIdle => ([], oc) :: regroup bulk h' tr' (buf_set b s out) (buf_set b2 s [])
+      | Cmd s CDone =>
+          let idle_out := buf_get b2 s in
+          let sent := if bulk then match merge idle_out with Some l => l | None => idle_out end else idle_out in
+          (buf_get b s ++ sent ++ out, oc) :: regroup bulk h' tr' (buf_del b s) (buf_del b2 s)
       | _ => match sess_of o with
-             | Some s => if buf_has b s then ([], oc) :: regroup h' tr' (buf_set b s (buf_get b s ++ out))
-                         else (out, oc) :: regroup h' tr' b
-             | None => (out, oc) :: regroup h' tr' b
+             | Some s => if buf_has b s then ([], oc) :: regroup bulk h' tr' b (buf_set b2 s (buf_get b2 s ++ out))
+                         else (out, oc) :: regroup bulk h' tr' b b2
+             | None => (out, oc) :: regroup bulk h' tr' b b2
              end
       end
   | _, _ => []
@@ -83,7 +88,7 @@ Fixpoint regroup (h : list op) (tr : list (list resp * outcome)) (b : list (nat 
 
 Definition model_trace (c : case) : list (list resp * outcome) :=
   let '(_, tr) := run (init_world (c_nsess c) (c_nmbox c)) (c_hist c) in
-  map (fun p => (proj (fst p), snd p)) (regroup (c_hist c) tr []).
+  map (fun p => (proj (fst p), snd p)) (regroup (c_bulk c) (c_hist c) tr [] []).
 
 Definition step_eqb (a b : list resp * outcome) : bool :=
   list_eqb resp_eqb (fst a) (fst b) && outcome_eqb (snd a) (snd b).
